@@ -123,14 +123,14 @@ def _c_is_alnum(I, a, ci, dt):
     return char_is_alnum(a[0])
 
 
-@reg('char::is_ascii_digit', 'char::is_numeric')
+@reg('char::is_ascii_digit', 'char::is_numeric', 'u8::is_ascii_digit')
 def _c_is_digit(I, a, ci, dt):
     c = a[0]
     c = I.deref_value(c) if isinstance(c, Ref) else c
     return char_is_ascii_digit(c)
 
 
-@reg('char::is_alphabetic', 'char::is_ascii_alphabetic')
+@reg('char::is_alphabetic', 'char::is_ascii_alphabetic', 'u8::is_ascii_alphabetic')
 def _c_is_alpha(I, a, ci, dt):
     c = a[0]
     c = I.deref_value(c) if isinstance(c, Ref) else c
@@ -139,7 +139,7 @@ def _c_is_alpha(I, a, ci, dt):
     return z3.Or(byte_between(c, 65, 90), byte_between(c, 97, 122))
 
 
-@reg('char::is_ascii_whitespace')
+@reg('char::is_ascii_whitespace', 'u8::is_ascii_whitespace')
 def _c_is_ascii_ws(I, a, ci, dt):
     c = a[0]
     c = I.deref_value(c) if isinstance(c, Ref) else c
